@@ -30,15 +30,16 @@ GEN_CFG = ["SPECIFICATION GSpec", "CONSTANTS", "  Apex <- AP", "  InitZones <- P
 
 # name, zones, serials, MsgsAt, MaxMsgs, simulate (num, depth) or None, tiers
 GENS = [
-    # one message, the whole universe, three zones (plain / delegation / CNAME+apex data)
-    ("one", "{Z1, Z2, Z3}", "{S10}", "<<Msgs1 \\cup Msgs2g \\cup Msgs2p \\cup Msgs0>>", 1, None, ("quick", "thorough")),
-    ("onebad", "{Z1}", "{S10}", "<<Msgs2>>", 1, None, ("thorough",)),
+    # one message, the whole universe, three zones (plain / delegation / CNAME + apex data)
+    ("one", "{Z1, Z2, Z3}", "{S10}", "<<Msgs1 \\cup Msgs2p \\cup Msgs0>>", 1, None, ("quick",)),
+    ("onefull", "{Z1, Z2, Z3}", "{S10}", "<<Msgs1 \\cup Msgs2 \\cup Msgs2p \\cup Msgs0>>", 1, None, ("thorough",)),
     # serial corner cases: 2^32-1, shortly before the wrap, 2^31-2
-    ("wrap", "{Z1}", "{SMax, SNear, SHalf}", "<<MsgsWrap, MsgsWrap>>", 2, None, ("quick", "thorough")),
+    ("wrap", "{Z1}", "{SMax, SNear, SHalf}", "<<MsgsWrap1, MsgsWrap>>", 2, None, ("quick",)),
+    ("wrapfull", "{Z1}", "{SMax, SNear, SHalf}", "<<MsgsWrap, MsgsWrap>>", 2, None, ("thorough",)),
     # two messages: every well-formed single-RR update, then a prerequisite probe or another update
-    ("two", "{Z1, Z2}", "{S10}", "<<Setup, Msgs1u \\cup Msgs1p>>", 2, None, ("quick", "thorough")),
-    ("twofull", "{Z1, Z2, Z3}", "{S10}", "<<Setup, Msgs1>>", 2, None, ("thorough",)),
-    ("three", "{Z1}", "{S10}", "<<Setup, Setup, Msgs1u \\cup Msgs1p>>", 3, None, ("thorough",)),
+    ("two", "{Z1}", "{S10}", "<<Setup, Msgs1u \\cup Msgs1p>>", 2, None, ("quick",)),
+    ("twofull", "{Z1, Z2, Z3}", "{S10}", "<<Setup, Msgs1u \\cup Msgs1p>>", 2, None, ("thorough",)),
+    ("three", "{Z1}", "{S10}", "<<SetupLite, SetupLite, Msgs1u \\cup Msgs1p>>", 3, None, ("thorough",)),
 ]
 # long histories by simulation: (num, depth)
 SIM = {"quick": (1500, 90), "thorough": (20000, 90)}
@@ -60,6 +61,18 @@ def _s32(p):
     return p[0] * 65536 + p[1]
 
 
+KNOWN_CLASSES = None
+
+
+def _known_classes():
+    """classes of C12 that are listed as known findings: a repaired defect ("fixed:" line) must no
+    longer explain anything, so only these may serve as triggers"""
+    global KNOWN_CLASSES
+    if KNOWN_CLASSES is None:
+        KNOWN_CLASSES = {k["class"] for k in vlib.Findings().known if k["property"] == "C12"}
+    return KNOWN_CLASSES
+
+
 def classify(d):
     """-> (class, fields).  `d` is a MISMATCH report of Trace_Update.
 
@@ -70,7 +83,8 @@ def classify(d):
     if d.get("kind") == "axfr":
         ev = d.get("event", {})
         err = str(ev.get("err", ""))
-        if err.startswith("RESPPARSE") and any(r[1] in ("MAILA", "MAILB") for r in d.get("missing", [])):
+        if (err.startswith("RESPPARSE") and any(r[1] in ("MAILA", "MAILB") for r in d.get("missing", []))
+                and "prescan-accepts-mail-metatype" in _known_classes()):
             return "prescan-accepts-mail-metatype", {"type": "MAILA/MAILB", "effect": "axfr-unparseable"}
         return "axfr-differs-from-zone", {"err": err[:40]}
     if d.get("kind") not in ("msg", "rmsg"):
@@ -178,6 +192,7 @@ def classify(d):
     if ser != pre_ser and any(u["c"] == "IN" and u["t"] == "CNAME" and (u["_o"], "CNAME", u["rd"]) in zone for u in upd):
         trig.append(("serial-bump-cname-readd", {"class": "IN", "type": "CNAME", "form": "identical-readd"}, {"serial"}))
 
+    trig = [t for t in trig if t[0] in _known_classes()]
     explained = set()
     for (_c, _f, ex) in trig:
         explained |= ex
@@ -196,7 +211,7 @@ def classify(d):
 
 def _mc(wd, tier):
     if tier == "thorough":
-        cfgs = [("MC_Update_step_wrap", 1500), ("MC_Update_hist", 1500), ("MC_Update_step3", 2400)]
+        cfgs = [("MC_Update_step_wrap", 1800), ("MC_Update_hist", 1800)]
     else:
         cfgs = [("MC_Update_step", 600), ("MC_Update_hist2", 600)]
     with ThreadPoolExecutor(max_workers=2) as ex:
@@ -262,25 +277,48 @@ def generate(wd, tier, seed):
     return out
 
 
-def monitor(res, wd, traces, shards, spec="Trace_Update"):
-    allp = os.path.join(wd, "all.trace.ndjson")
-    n_msgs = 0
-    with open(allp, "w") as out:
-        for t in traces:
-            with open(t) as f:
-                for line in f:
-                    if '"ev":"msg"' in line or '"ev":"rmsg"' in line:
-                        n_msgs += 1
-                    out.write(line)
-    mism, tst = vlib.trace_check_parallel(os.path.join(vlib.SPEC, spec + ".tla"), os.path.join(vlib.SPEC, spec + ".cfg"),
-                                          wd, allp, shards=shards, timeout=3000)
+def monitor(res, wd, traces, shards, spec="Trace_Update", chunk_events=12000):
+    """Concatenate the traces, cut them at `reset` events into chunks of about chunk_events lines
+    (TLC holds a whole chunk in memory) and validate `shards` chunks at a time.
+    -> (mismatches, {"distinct": states}, number of message events, NOTE lines)"""
+    chunks, cur, n_cur, n_msgs = [], None, 0, 0
+
+    def new_chunk():
+        p = os.path.join(wd, f"chunk{len(chunks)}.ndjson")
+        chunks.append(p)
+        return open(p, "w")
+    for t in traces:
+        with open(t) as f:
+            for line in f:
+                if '"ev":"reset"' in line and (cur is None or n_cur >= chunk_events):
+                    if cur:
+                        cur.close()
+                    cur, n_cur = new_chunk(), 0
+                if cur is None:
+                    cur = new_chunk()
+                if '"ev":"msg"' in line or '"ev":"rmsg"' in line:
+                    n_msgs += 1
+                cur.write(line)
+                n_cur += 1
+    if cur:
+        cur.close()
+    tla, cfg = os.path.join(vlib.SPEC, spec + ".tla"), os.path.join(vlib.SPEC, spec + ".cfg")
+
+    def one(i, p):
+        swd = os.path.join(wd, f"m{i}")
+        os.makedirs(os.path.join(swd, "tmp"), exist_ok=True)
+        return vlib.trace_check(tla, cfg, swd, p, 3000, "3g")
+    with ThreadPoolExecutor(max_workers=max(1, shards)) as ex:
+        results = [f.result() for f in [ex.submit(one, i, p) for i, p in enumerate(chunks)]]
+    mism = [m for r in results for m in r[0]]
+    states = sum((r[1] or {}).get("distinct", 0) for r in results)
     notes = 0
-    for p in glob.glob(os.path.join(wd, "s*", "*.tlc.out")):
+    for p in glob.glob(os.path.join(wd, "m*", "*.tlc.out")):
         with open(p, errors="replace") as f:
             for line in f:
                 if line.startswith('<<"NOTE"'):
                     notes += 1
-    return mism, tst, n_msgs, notes
+    return mism, {"distinct": states, "chunks": len(chunks)}, n_msgs, notes
 
 
 def run(res, tier, seed):
@@ -316,6 +354,9 @@ def run(res, tier, seed):
                 "off_path_but_allowed": sum(1 for v in verdicts if v["status"] == "off-path"),
                 "mismatch": sum(1 for v in verdicts if v["status"] == "mismatch")}
         res.exhaustive = exhaustive
+        res.extra["exhaustive_scope"] = ("the generators other than `sim` enumerate their message universe completely "
+                                         "(every message / pair / triple listed in GENS from every listed zone); `sim` and "
+                                         "the recorded random histories are seeded samples of longer histories")
         # ---- T: seeded random long histories
         n_rand, max_msgs = (20000, 50) if tier == "thorough" else (1500, 30)
         procs = 8
@@ -367,6 +408,8 @@ def run(res, tier, seed):
             raise vlib.ToolError(f"adapter round trip failed (zone loaded != zone meant) in case {m['case']}")
         cls, fields = classify(m)
         fields = dict(fields)
+        if not res.findings.lookup(res.prop, cls, fields) and len(res.violations) < 8:
+            m["history"] = case_events(wd, str(m["case"]))      # so that --replay can run it again
         res.mismatch(cls, fields, m)
     # a replay verdict the monitor does not confirm would be a hole in one of the two
     for v in verdicts_all:
@@ -375,7 +418,54 @@ def run(res, tier, seed):
     res.extra["mismatch_reports"] = len(mism)
 
 
-def replay(res, path):
+def case_events(wd, case_id):
+    """the recorded events of one case (reset ... up to the next reset), from the monitor's chunks"""
+    key = '"case":' + json.dumps(case_id)
+    for p in sorted(glob.glob(os.path.join(wd, "chunk*.ndjson"))):
+        out, on = [], False
+        with open(p) as f:
+            for line in f:
+                if '"ev":"reset"' in line:
+                    if on:
+                        return out
+                    on = key in line.replace(" ", "")
+                if on:
+                    out.append(json.loads(line))
+        if out:
+            return out
+    return []
+
+
+def reproduce(res, path, crash=False, spec="Trace_Update", classifier=None):
+    """./check Cnn --replay <file>: run the recorded history of a violation again through the real
+    code and the monitor; exit 1 if a mismatch of the same class comes out again."""
     d = json.load(open(path))
-    print(json.dumps(d, indent=1)[:6000])
-    return 0
+    det = d.get("detail", {})
+    hist = det.get("history") or []
+    print(json.dumps({k: v for k, v in d.items() if k != "detail"}, indent=1))
+    if not hist:
+        print(json.dumps(det, indent=1)[:6000])
+        print("(no recorded history in this file: nothing to run)")
+        return 0
+    vlib.build_harness(BINS)
+    wd = vlib.workdir(res.prop.lower() + "-replay")
+    reset = hist[0]
+
+    def clean(m):
+        return {"pre": [{k: v for k, v in rr.items() if not k.startswith("_")} for rr in m["pre"]],
+                "upd": [{k: v for k, v in rr.items() if not k.startswith("_")} for rr in m["upd"]]}
+    case = {"id": str(reset["case"]), "apex": reset["apex"], "zone": reset["want"], "ser": reset["wantser"],
+            "msgs": [clean(e["m"]) for e in hist if e.get("ev") == "msg"], "exp": []}
+    _verdicts, tfiles = replay_cases(wd, "replay", [case], extra_args=("--crash", "--cont", "2") if crash else (), procs=1)
+    mism, _tst, n_msgs, _notes = monitor(res, wd, tfiles, shards=1, spec=spec)
+    classes = set()
+    for m in mism:
+        cls, fields = (classifier or classify)(m)
+        classes.add(cls)
+        print(f"MISMATCH line={m.get('line')} kind={m.get('kind')} class={cls} fields={json.dumps(fields)}")
+    print(f"{n_msgs} messages run again, {len(mism)} mismatch reports, classes: {sorted(classes)}")
+    return 1 if d.get("class") in classes else 0
+
+
+def replay(res, path):
+    return reproduce(res, path)
